@@ -10,7 +10,7 @@ package transport
 //@ func splitBySnapshotFile [C15]
 //@ requires startChunkID + (filesize - 1) / snapshotChunkSize + 1 <= MaxUint64
 //@ ensures filesize > 0
-//@ ensures len(result) == (filesize - 1) / snapshotChunkSize + 1
+//@ ensures len(result) == (filesize - 1) / snapshotChunkSize + 1 && fresh(result)
 //@ ensures forall i int :: 0 <= i && i < len(result) ==> result[i].FileChunkId == i && result[i].ChunkId == startChunkID + i &&
 //@    result[i].FileChunkCount == len(result) && result[i].FileSize == filesize && result[i].ChunkSize > 0 && result[i].ChunkSize <= snapshotChunkSize
 // the chunk sizes add up to the file size: all but the last chunk are full
@@ -22,6 +22,20 @@ package transport
 //@    results[j].FileChunkCount == chunkCount && results[j].FileSize == filesize && results[j].ChunkSize > 0 && results[j].ChunkSize <= snapshotChunkSize
 //@ loop 1 invariant forall j int :: 0 <= j && j < len(results) && j < chunkCount - 1 ==> results[j].ChunkSize == snapshotChunkSize
 //@ loop 1 invariant forall j int :: 0 <= j && j < len(results) && j == chunkCount - 1 ==> results[j].ChunkSize == filesize - (chunkCount - 1) * snapshotChunkSize
+
+// the chunks of a whole snapshot (main file, then every external file) carry consecutive chunk ids
+// 0, 1, 2, ... without a hole -- whatever the file sizes are (also exact multiples of the chunk size) --
+// and all carry the total count: the receiver accepts chunks only in exactly that order
+//@ func getChunks [C15]
+//@ noframe
+//@ nobounds
+//@ requires m.Snapshot.FileSize > 0 && m.Snapshot.FileSize < 1152921504606846976 && len(m.Snapshot.Files) < 1048576 && snapshotChunkSize > 0
+//@ requires forall k int :: 0 <= k && k < len(m.Snapshot.Files) ==> m.Snapshot.Files[k] != nil && m.Snapshot.Files[k].FileSize > 0 && m.Snapshot.Files[k].FileSize < 1099511627776
+//@ ensures forall i int :: 0 <= i && i < len(result) ==> result[i].ChunkId == i && result[i].ChunkCount == len(result)
+//@ loop 1 modifies freshof(pb.Chunk)
+//@ loop 1 invariant (fresh(results) || cap(results) == 0) && startChunkID == len(results) && len(results) <= 576460752303423488 + ($i + 1) * 1099511627776 && $i < len(m.Snapshot.Files) && (forall j int :: 0 <= j && j < len(results) ==> results[j].ChunkId == j)
+//@ loop 2 modifies elems(results)
+//@ loop 2 invariant forall j int :: 0 <= j && j < len(results) ==> results[j].ChunkId == j && (j <= $i ==> results[j].ChunkCount == len(results))
 
 // ---------------------------------------------------------------- receiver side: the per-stream state machine (C15)
 
